@@ -61,7 +61,7 @@ static struct { struct Header h; struct GC v; } GO; static struct GC* gc;
 static struct GCEntry SNAP[12]; static int old_n; static unsigned in_k; static var in_p; static bool in_root;
 static int old_has_p, old_has_q; static bool old_root_q, old_marked_q, old_marked_p, old_root_p;
 
-static int wf_gc(struct GC* g, size_t n, int marks_clear) {
+static int wf_gc_x(struct GC* g, size_t n, int marks_clear, int allow_full) {
   if (g->nslots != n) return 0;
   size_t cnt = 0;
   for (size_t i = 0; i < n; i++) {
@@ -80,8 +80,9 @@ static int wf_gc(struct GC* g, size_t n, int marks_clear) {
     }
     for (size_t k = 0; k < i; k++) if (g->entries[k].hash != 0 && g->entries[k].ptr == e->ptr) return 0;
   }
-  return cnt == g->nitems && cnt < n;
+  return cnt == g->nitems && (cnt < n || (allow_full && cnt == n));
 }
+static int wf_gc(struct GC* g, size_t n, int marks_clear) { return wf_gc_x(g, n, marks_clear, 0); }
 static int view(struct GC* g, size_t n, var p, bool* root, bool* marked) {
   for (size_t i = 0; i < n; i++) if (g->entries[i].hash != 0 && g->entries[i].ptr == p) { if (root) *root = g->entries[i].root; if (marked) *marked = g->entries[i].marked; return 1; }
   return 0;
@@ -120,7 +121,7 @@ void h_set_ptr(void) {
   ASSERT(has && r == in_root && m == false, "[C17] set records the object once, with the root flag it was allocated with");
   has = view(gc, NS, gh_q, &r, &m);
   ASSERT(gh_q == in_p || (has == old_has_q && (!has || (r == old_root_q && m == old_marked_q))), "[C17] set leaves every other registration unchanged");
-  ASSERT(wf_gc(gc, NS, 1) || gc->nitems == NS, "[C17] the registry invariant holds after an insertion (unique pointers, homes, probe order, count)");
+  ASSERT(wf_gc_x(gc, NS, 1, 1), "[C17] the registry invariant holds after an insertion (unique pointers, homes, probe order, count)");
 }
 void h_mem_ptr(void) {
   arbitrary_gc();
